@@ -924,6 +924,15 @@ def mutations(nodes):
             m = copy.deepcopy(nodes)
             _set(m[i]["parameters"], path, _other(v))
             yield ("parameter.value", "node %d path %s" % (i, "/".join(map(str, path))), m)
+        # a string value with another line terminator / blank (another string all the same)
+        for path, v in _paths(n.get("parameters") or {}):
+            if not isinstance(v, str):
+                continue
+            for a, b in (("\r\n", "\n"), ("\n", "\r\n"), ("\r", "\n"), ("\n", "\r"), ("\t", " "), (" ", "  ")):
+                if a in v and v.replace(a, b) != v and (a != "\n" or "\r\n" not in v):
+                    m = copy.deepcopy(nodes)
+                    _set(m[i]["parameters"], path, v.replace(a, b))
+                    yield ("parameter.value", "node %d path %s: %r -> %r" % (i, "/".join(map(str, path)), a, b), m)
         # nodes: delete / insert / swap
         if len(nodes) > 1:
             yield ("nodes.delete", "node %d" % i, copy.deepcopy(nodes[:i] + nodes[i + 1:]))
